@@ -203,7 +203,7 @@ def work_repo(bins, seed, idx, tmp):
                 repo.commit()
         if rng.random() < 0.35:
             repo.detach(repo.head_cid())        # CI-style detached checkout
-        kind = rng.choice(["clean", "modified", "untracked", "clean"])
+        kind = rng.choice(["clean", "modified", "untracked", "clean", "unmerged"])
         repo.make_dirty(kind)
         os.makedirs(os.path.join(top, "otherhome"), exist_ok=True)
         # a user-level git configuration made of presentation / convenience preferences: not repository state, not an argument
